@@ -24,15 +24,16 @@ namespace ScnVerif.Xye
 
 /-! ## refusals -/
 
-inductive Err | variances | dimension | value | coord | key | index
+inductive Err | variances | dimension | value | coord | key | index | type
   deriving DecidableEq, Repr
 
 /-- what `save_xye` looks at in a coordinate: its name, its number of dimensions (0 or 1 for
-one-dimensional data) and whether it is a bin-edge coordinate -/
+one-dimensional data), whether it is a bin-edge coordinate, and whether its dtype is numeric -/
 structure Coord (N : Type) where
   name : N
   ndim : Nat
   edges : Bool
+  numeric : Bool     -- float64/float32/int64/int32/bool values (`np.c_` cannot promote datetimes)
   deriving Repr
 
 /-- what `save_xye` looks at in a data array -/
@@ -66,7 +67,9 @@ def chooseCoord (d : Desc N) : Option N → Except Err N
   | some c => .ok c
   | none => deduceCoord d
 
-/-- the checks of `save_xye` in the order of the code; returns the coordinate to be written -/
+/-- the checks of `save_xye` in the order of the code; returns the coordinate to be written.
+The last one is implicit: `np.c_[coord, values, sqrt(variances)]` raises `DTypePromotionError`
+(a `TypeError`) for a datetime coordinate, before anything is written. -/
 def saveCheck (d : Desc N) (coordArg : Option N) : Except Err N :=
   if !d.hasVariances then .error .variances
   else if d.ndim ≠ 1 then .error .dimension
@@ -78,7 +81,9 @@ def saveCheck (d : Desc N) (coordArg : Option N) : Except Err N :=
       match isEdges d coord with
       | .error e => .error e
       | .ok true => .error .coord
-      | .ok false => .ok coord
+      | .ok false =>
+        if (d.coords.find? (fun c => c.name = coord)).any (fun c => !c.numeric) then .error .type
+        else .ok coord
 
 end refusals
 
@@ -401,5 +406,16 @@ def loadText (parse : List Char → Option F) (sq : F → F) (pathMode : Bool) (
   | .ok rows => finishLoad sq rows
 
 end text
+
+/-! ## the table that is written
+
+`np.c_[coord.values, da.values, np.sqrt(da.variances)]` promotes integer and single-precision
+columns to float64 *exactly* (the table is float32 only if all three columns are, which prints
+the same digits), so the numbers printed are the exact values of the inputs; the square root is
+taken in the precision of the data. -/
+
+/-- `np.sqrt(da.variances)` for float64 (`single = false`) or float32 data, as a float64 -/
+def sqrtData (single : Bool) (v : Float) : Float :=
+  if single then (Float32.sqrt v.toFloat32).toFloat else Float.sqrt v
 
 end ScnVerif.Xye
